@@ -28,7 +28,9 @@ import types
 
 DATA_TYPES = (int, float, str, bool, type(None), complex, bytes)
 FRESH_MAIN = {"__name__", "__doc__", "__package__", "__loader__", "__spec__", "__builtins__", "__file__",
-              "__cached__", "__annotations__"}
+              "__cached__"}
+# `__annotations__` is a global the PROGRAM makes (variable annotations at module level): it is compared, see globals_of
+BUILTIN_BASES = (bool, int, float, complex, str, bytes, bytearray, list, tuple, dict, set, frozenset)
 
 
 def describe(v, depth=0, seen=None):
@@ -60,6 +62,16 @@ def describe(v, depth=0, seen=None):
         return ["function", getattr(v, "__module__", None), getattr(v, "__qualname__", "?")]
     if isinstance(v, BaseException):
         return ["exception", t.__name__, describe(v.args, depth + 1, seen)]
+    for base in BUILTIN_BASES:
+        if isinstance(v, base):
+            # an instance of a (student) subclass of a builtin type: the class AND the content (a plain list is not a
+            # Stack, whatever its repr says)
+            try:
+                plain = base(v)
+                attrs = sorted([k, describe(x, depth + 1, seen)] for k, x in getattr(v, "__dict__", {}).items())
+            except Exception:       # noqa
+                break
+            return ["subclass-instance", getattr(t, "__module__", "?"), t.__qualname__, describe(plain, depth + 1, seen), attrs]
     try:
         attrs = vars(v)
     except TypeError:
@@ -166,33 +178,72 @@ class Tracer:
         return ev
 
 
-def run_job(job):
-    filename = job.get("filename", "answer.py")
-    code = job["code"]
+def exec_program(code, filename, res_into=None):
+    """Run `code` as a fresh `__main__` module (what runpy does).  The source is compiled with dont_inherit=True:
+    no compiler flag of THIS file (a `from __future__` import here would be one) reaches the student's program.
+    -> (globals, outcome, mro)"""
     mod = types.ModuleType("__main__")
     g = mod.__dict__
     g["__builtins__"] = builtins
     g["__file__"] = filename
-    saved_main = sys.modules["__main__"]
+    g["__annotations__"] = {}       # as in the real __main__ of `python file.py`
     sys.modules["__main__"] = mod
+    outcome, mro = None, []
+    try:
+        exec(compile(code, filename, "exec", dont_inherit=True), g)
+    except JobTimeout:
+        raise
+    except BaseException as e:      # noqa  (SystemExit included: it is an outcome of the program)
+        outcome = [type(e).__name__, innermost_line(e, filename)]
+        mro = [k.__name__ for k in type(e).__mro__]
+    return g, outcome, mro
+
+
+def student_env(g):
+    """What a grader's expression sees when it builds an argument from the student's own classes: the program's
+    globals over the real builtins."""
+    env = dict((k, v) for k, v in g.items() if k != "__builtins__")
+    env["__builtins__"] = builtins
+    return env
+
+
+def run_job(job):
+    filename = job.get("filename", "answer.py")
+    code = job["code"]
+    saved_main = sys.modules["__main__"]
     res = {"outcome": None, "calls": []}
     tr = Tracer(job.get("inputs", []), job.get("pad"), job.get("limit"))
+    hv = {}         # the grader's own variables (steps {"op": "let"}), alive over the whole history
     try:
         with tr:
-            try:
-                exec(compile(code, filename, "exec"), g)
-            except JobTimeout:
-                raise
-            except BaseException as e:      # noqa  (SystemExit included: it is an outcome of the program)
-                res["outcome"] = [type(e).__name__, innermost_line(e, filename)]
-                res["outcome_mro"] = [k.__name__ for k in type(e).__mro__]
+            g, res["outcome"], mro = exec_program(code, filename)
+            if res["outcome"]:
+                res["outcome_mro"] = mro
             res["events"] = tr.take()
             res["globals"] = globals_of(g)
             for c in job.get("calls", []):
-                env = {"__builtins__": builtins}
+                op = c.get("op", "call")
+                if op == "let":
+                    try:
+                        exec(c["stmt"], student_env(g), hv)
+                        res["calls"].append({"op": "let", "result": ["let"], "events": tr.take()})
+                    except JobTimeout:
+                        raise
+                    except BaseException as e:      # noqa
+                        res["calls"].append({"op": "let", "result": ["harness", type(e).__name__], "events": tr.take()})
+                    continue
+                if op == "rerun":
+                    # the same process grades again (the same or another program): a fresh interpreter state for the
+                    # program is a fresh __main__ module
+                    tr.stdin.items = list(c.get("inputs", []))
+                    g, outcome, mro = exec_program(c.get("code", code), filename)
+                    res["calls"].append({"op": "rerun", "result": ["rerun", outcome], "outcome": outcome, "outcome_mro": mro,
+                                         "events": tr.take(), "globals": globals_of(g)})
+                    continue
+                env = student_env(g) if c.get("scope") == "student" else {"__builtins__": builtins}
                 try:
-                    args = [eval(a, env) for a in c.get("args", [])]
-                    kwargs = {k: eval(a, env) for k, a in c.get("kwargs", {}).items()}
+                    args = [eval(a, env, hv) for a in c.get("args", [])]
+                    kwargs = {k: eval(a, env, hv) for k, a in c.get("kwargs", {}).items()}
                 except Exception as e:      # noqa
                     res["calls"].append({"result": ["harness", type(e).__name__], "events": []})
                     continue
@@ -226,6 +277,8 @@ def globals_of(g, skip=FRESH_MAIN):
     for k, v in g.items():
         if k in skip:
             continue
+        if k == "__annotations__" and not v:
+            continue        # CPython makes the (empty) dict in some situations only; an empty one says nothing
         out[k] = describe(v)
     return out
 
